@@ -1022,7 +1022,8 @@ class FunctionalQuadraticPerturb(Functional):
 
         super(FunctionalQuadraticPerturb, self).__init__(
             space=func.domain,
-            linear=func.is_linear and (quadratic_coeff == 0),
+            linear=(func.is_linear and quadratic_coeff == 0
+                    and constant == 0),
             grad_lipschitz=grad_lipschitz)
 
     @property
